@@ -23,17 +23,18 @@ type SolverStats struct {
 }
 
 type Solver struct {
-	name    string
-	cmd     *osexec.Cmd
-	in      io.WriteCloser
-	out     *bufio.Reader
-	Stats   SolverStats
-	log     io.Writer
-	defined map[string]string // term key -> solver name, valid inside current path scope
-	nextID  int
-	depth   int
-	dead    bool
-	lastErr string
+	name      string
+	cmd       *osexec.Cmd
+	in        io.WriteCloser
+	out       *bufio.Reader
+	Stats     SolverStats
+	log       io.Writer
+	defined   map[string]string // term key -> solver name, valid inside current path scope
+	nextID    int
+	depth     int
+	dead      bool
+	lastErr   string
+	timeoutMs int
 }
 
 // SolverCommand gives argv for a named solver.
@@ -64,7 +65,7 @@ func NewSolver(name string, timeoutMs int) (*Solver, error) {
 	if err := cmd.Start(); err != nil {
 		return nil, err
 	}
-	s := &Solver{name: name, cmd: cmd, in: in, out: bufio.NewReaderSize(outp, 1<<16), defined: map[string]string{}}
+	s := &Solver{name: name, timeoutMs: timeoutMs, cmd: cmd, in: in, out: bufio.NewReaderSize(outp, 1<<16), defined: map[string]string{}}
 	if f := os.Getenv("GOSYMX_SMTLOG"); f != "" {
 		w, _ := os.OpenFile(f, os.O_APPEND|os.O_CREATE|os.O_WRONLY, 0644)
 		s.log = w
@@ -175,6 +176,13 @@ func (s *Solver) Check() SatResult {
 	s.send("(check-sat)")
 	res := Unknown
 	sawErr := false
+	// watchdog: the solver's own soft timeout is not always honoured
+	wd := time.AfterFunc(time.Duration(s.timeoutMs+5000)*time.Millisecond, func() {
+		s.dead = true
+		s.lastErr = "solver killed by watchdog (no answer within timeout)"
+		s.cmd.Process.Kill()
+	})
+	defer wd.Stop()
 	for {
 		line, err := s.out.ReadString('\n')
 		if err != nil {
